@@ -5,7 +5,7 @@
 import os, sys
 sys.path.insert(0, os.path.join(os.environ.get("AIOFTP_REPO", "/repo"), "src"))
 OBLIGATION = 'aioftp.server:mlsd_worker@mlsd::ThrottleStreamIO.__aexit__/no-wait-on-the-peer-after-cancellation:writer.wait_closed'
-MODEL = {'wait_future_timeout!41': '0/1', 'dc_accepted!38': True, 'child!62': 'OPath!val!0', 'block_size!0': 1, 'restart_offset!10': 0, 'data_connection_done!22': True, 'dc_accepted!43': False, 'dc_accepted!39': False, 'dc_accepted!33': False, 'dc_accepted!30': False, 'dc_accepted!32': False, 'dc_accepted!29': False, 'data_connection_present!21': False, 'user_present!11': True, 'current_directory_done!16': True, 'fsbool!35': True, 'user_done!12': True, 'current_directory_present!15': True, 'readable!36': True, 'passive_server_present!19': True, 'logged_present!13': True, 'passive_server_done!20': True, 'logged_done!14': True, 'fsbool!63': True, 'fsbool!59': False, 'auth_ok!27': True}
+MODEL = {'block_size!0': 1, 'dc_accepted!38': True, 'child!108': 'OPath!val!0', 'restart_offset!10': 0, 'data_connection_done!22': True, 'wait_future_timeout!48': '0/1', 'dc_accepted!50': False, 'dc_accepted!39': False, 'dc_accepted!33': False, 'dc_accepted!30': False, 'dc_accepted!32': False, 'dc_accepted!29': False, 'data_connection_present!21': False, 'user_present!11': True, 'user_done!12': True, 'fsbool!35': True, 'current_directory_done!92': True, 'current_directory_present!52': True, 'current_directory_present!41': True, 'current_directory_done!81': True, 'passive_server_done!20': True, 'logged_done!14': True, 'current_directory_done!104': True, 'current_directory_done!53': True, 'current_directory_present!91': True, 'current_directory_done!16': True, 'current_directory_present!103': True, 'fsbool!98': True, 'current_directory_present!80': True, 'current_directory_present!15': True, 'readable!36': True, 'passive_server_present!19': True, 'logged_present!13': True, 'current_directory_done!71': True, 'current_directory_done!42': True, 'fsbool!87': False, 'current_directory_present!70': True, 'auth_ok!27': True}
 SOLVER_NOTE = ''
 
 print("obligation", OBLIGATION, "failed; no concrete failing input could be constructed automatically")
